@@ -362,6 +362,22 @@ def server_rules_index_guarded(m: Model, r: Report, rid: str) -> int:
     return n
 
 
+def session_change_only_into_offered(m: Model, r: Report, rid: str) -> None:
+    """The built-in positive answer to DiagnosticSessionControl moves the server into the requested session; it is given only for a session the model offers
+    (tested in the rule itself: the sub-function rule that usually refuses other sessions can be switched off), because every rule asserts that the active
+    session is part of the model."""
+    from sa.util import path_condition
+    f = m.require_function("gallia.services.uds.server.UDSServer.default_response_if_session_change")
+    rets = [n for n in ast.walk(f.node) if isinstance(n, ast.Return) and n.value is not None and "DiagnosticSessionControlResponse(" in ast.unparse(n.value)]
+    if len(rets) != 1:
+        raise AnalysisError(f"{f.qualname}: positive DiagnosticSessionControl answer not found")
+    conds = [ast.unparse(t) for t, pol in path_condition(f.node, rets[0]) if pol]
+    ok = any("supported_services" in c and " in " in c and "diagnostic_session_type" in c for c in conds)
+    r.check(ok, rid, f"{f.qualname}#offered-session-only", f"the positive answer is given under {conds}: without a test that the requested session is one the model offers, "
+            "`10 <unoffered session>` (sub-function rule switched off) moves the server into a session outside its model and every later request fails the "
+            "'Virtual ECU in unsupported session' assertion", loc=f.loc)
+
+
 def sub_function_split_rule(m: Model, r: Report, rid: str) -> None:
     """utils.sub_function_split(b) == (b & 0x7F, bit 7 of b set) for every byte value, decided by evaluating its return expression for 0..255."""
     from sa import miniterp
